@@ -44,6 +44,48 @@ def run(tier, config):
             rep.add("%s|retry-closure" % Q.disp(f), "C10:D1", False, "cannot resolve the closure handed to retry_on_timeout", t.get("at"))
         else:
             retried.add(cp)
+    # D5 re-entrancy: a retried closure may hold the protocol/socket object mutably, but nothing else - any other
+    # mutable capture is state carried from one attempt to the next (the re-attempt would not be the same request)
+    def owns_socket(ty, depth=0):
+        t = ty.replace("&mut ", "").replace("&", "").strip()
+        if "Socket" in t or "socket::" in t:
+            return True
+        if depth > 2:
+            return False
+        base = t.split("<")[0]
+        for path, adt in c.adts.items():
+            if path.split("gamedig::")[-1] == base or path.endswith("::" + base.split("::")[-1]) and base.split("::")[-1] == path.split("::")[-1]:
+                for v in adt["variants"]:
+                    for fld in v["fields"]:
+                        if "Socket" in fld["ty"] or "socket::" in fld["ty"] or "HttpClient" in fld["ty"] or "Agent" in fld["ty"]:
+                            return True
+        return False
+    for f, bi, t, k in rcalls:
+        if "::tests::" in f["path"]:
+            continue
+        b = Body(f)
+        # locate the closure aggregate
+        op = t["args"][1]
+        l = op[1][0] if op[0] in ("copy", "move") else None
+        sd = b.single_def(l) if l is not None else None
+        hops = 0
+        while sd and sd[2][0] == "use" and hops < 4:
+            op = sd[2][1]
+            l = op[1][0] if op[0] in ("copy", "move") else None
+            sd = b.single_def(l) if l is not None else None
+            hops += 1
+        if not sd or sd[2][0] != "agg" or sd[2][1].get("k") != "closure":
+            continue
+        caps = sd[2][2]
+        bad = []
+        for cp_ in caps:
+            if cp_[0] in ("copy", "move") and not cp_[1][1]:
+                ty = b.locals[cp_[1][0]]["ty"]
+                if ty.startswith("&mut ") and not owns_socket(ty):
+                    bad.append("%s: %s" % (b.render_operand(cp_, 3, names=True), ty))
+        rep.add("%s|retry-closure-reentrant" % Q.disp(f), "C10:D5", not bad,
+                "the retried closure captures only the protocol/socket object mutably" if not bad else
+                "the retried closure captures %s by mutable reference: state is carried from one attempt to the next, so a re-attempt is not the same request" % bad, t.get("at"))
     # coverage: F is covered if it is a retried closure or every caller (>=1) is covered
     callers = {}
     for p, outs in g.edges.items():
@@ -153,7 +195,7 @@ def run(tier, config):
         rep.floor("send/receive call sites outside socket.rs", n_sites, 25)
         rep.floor("PacketReceive/PacketSend construction sites", n_cons, 5)
     rep.decided = ["D1 every send/receive site is inside a retried unit on all call chains (4 reviewed exceptions)",
-                   "D2 retry counts come from TimeoutSettings::get_retries*", "D3 helper makes at most r+1 attempts, one fetch each, "
+                   "D2 retry counts come from TimeoutSettings::get_retries*", "D5 the retried unit carries no mutable state of its own between attempts", "D3 helper makes at most r+1 attempts, one fetch each, "
                    "retries exactly the PacketReceive/PacketSend kinds", "D4 only socket/http/capture code can produce those kinds"]
     rep.not_decided = ["'same result as with no faults' (state carried across attempts) - needs execution",
                        "which concrete attempt determines the result"]
